@@ -27,6 +27,8 @@ import (
 	"database/sql/driver"
 	"errors"
 	"fmt"
+	"io"
+	"net/http"
 	"os"
 	"runtime"
 	"strconv"
@@ -81,11 +83,65 @@ const (
 	EVLockWait    = "my1205"      // *mysql.MySQLError 1205, lock wait timeout
 )
 
-var errKinds = []string{"", PVDup, EVNotFound, EVNoRows, EVTxDone, EVCanceled, EVDeadline, EVBadConn, EVInvalidConn, EVDeadlock, EVLockWait}
+// second audit round: more sentinels, and values that must not be touched
+const (
+	EVDupKey    = "dupkey"    // gorm.ErrDuplicatedKey (what gorm reports for 1062 under TranslateError)
+	EVInvalidTx = "invalidtx" // gorm.ErrInvalidTransaction
+	EVConnDone  = "conndone"  // sql.ErrConnDone
+	EVEOF       = "eof"       // io.EOF
+	EVUEOF      = "ueof"      // io.ErrUnexpectedEOF
+	EVMy1105    = "my1105"    // *mysql.MySQLError 1105, unknown error
+	EVMy1452    = "my1452"    // *mysql.MySQLError 1452, foreign key constraint fails
+	// error values whose own Error() method panics: nobody may format them, the caller gets them back as they are
+	EVNilErr = "nilerr" // (*mysql.MySQLError)(nil): a non-nil error whose Error() dereferences nil
+	EVBadErr = "baderr" // badError{i}: Error() panics
+	// prefixes: the value wrapped once more
+	EVWrap = "wrap:" // fmt.Errorf("step %d: %w", i, value)
+	EVJoin = "join:" // errors.Join(stepError{i}, value)
+)
+
+// errKinds: the error values that can be wrapped (their Error() is harmless); errKindsAll adds the two that cannot.
+var errKinds = []string{"", PVDup, EVNotFound, EVNoRows, EVTxDone, EVCanceled, EVDeadline, EVBadConn, EVInvalidConn, EVDeadlock, EVLockWait,
+	EVDupKey, EVInvalidTx, EVConnDone, EVEOF, EVUEOF, EVMy1105, EVMy1452}
+
+var errKindsAll = append(append([]string(nil), errKinds...), EVNilErr, EVBadErr)
+
+// execFailKinds: what the fake makes Exec("STEP i") report for an "execfail" step ("" = the injected execError{i});
+// MySQL errors travel up through gorm, which rewrites 1062 into gorm.ErrDuplicatedKey when the db was opened with
+// TranslateError - the step then really returns the translated sentinel.
+var execFailKinds = []string{"", PVDup, EVDeadlock, EVLockWait, EVMy1105, EVMy1452}
+
+type badError struct{ N int }
+
+func (b badError) Error() string { panic(fmt.Sprintf("badError %d: Error() called", b.N)) }
 
 // stepErrValue is the error leaf i returns for error kind pv.
 func stepErrValue(pv string, i int) error {
+	if strings.HasPrefix(pv, EVWrap) {
+		return fmt.Errorf("step %d: %w", i, stepErrValue(pv[len(EVWrap):], i))
+	}
+	if strings.HasPrefix(pv, EVJoin) {
+		return errors.Join(stepError{i}, stepErrValue(pv[len(EVJoin):], i))
+	}
 	switch pv {
+	case EVDupKey:
+		return gorm.ErrDuplicatedKey
+	case EVInvalidTx:
+		return gorm.ErrInvalidTransaction
+	case EVConnDone:
+		return sql.ErrConnDone
+	case EVEOF:
+		return io.EOF
+	case EVUEOF:
+		return io.ErrUnexpectedEOF
+	case EVMy1105:
+		return &mysqldrv.MySQLError{Number: 1105, Message: fmt.Sprintf("Unknown error (step %d)", i)}
+	case EVMy1452:
+		return &mysqldrv.MySQLError{Number: 1452, Message: fmt.Sprintf("Cannot add or update a child row: a foreign key constraint fails (step %d)", i)}
+	case EVNilErr:
+		return (*mysqldrv.MySQLError)(nil)
+	case EVBadErr:
+		return badError{i}
 	case PVDup:
 		// what a duplicate-key INSERT reports: callers look for it with errors.As / IsDupError
 		return &mysqldrv.MySQLError{Number: 1062, Message: fmt.Sprintf("Duplicate entry of step %d", i)}
@@ -122,6 +178,12 @@ const (
 	// values whose own Error()/String() method panics when a handler formats them
 	PVNilErr      = "nilerr"      // panic((*mysql.MySQLError)(nil)): an error whose Error() dereferences nil
 	PVBadStringer = "badstringer" // panic(badStringer{i}): String() panics
+	// well-known sentinel VALUES (by identity) that some conventions treat specially
+	PVAbortHandler = "aborthandler" // panic(http.ErrAbortHandler)
+	PVCtxCanceled  = "pcanceled"    // panic(context.Canceled)
+	PVNotFound     = "pnotfound"    // panic(gorm.ErrRecordNotFound)
+	PVEOF          = "peof"         // panic(io.EOF)
+	PVNilDeref     = "nilderef"     // a genuine nil pointer dereference (runtime.Error)
 )
 
 type badStringer struct{ N int }
@@ -164,11 +226,69 @@ type Case struct {
 	// Twice: Transact is invoked a second time with the SAME step functions / Combine values (fresh fake, fresh
 	// event log, same oracle): a GormProcFn that keeps state between invocations shows.
 	Twice bool `json:"twice,omitempty"`
-	// Translate: the db is opened with gorm.Config{TranslateError: true} (gorm then rewrites driver errors it adds
-	// itself - a step\'s own error must still come back unchanged)
-	Translate    bool `json:"translate,omitempty"`
+	// how the db is opened and which handle of it is handed to Transact
+	OpenCfg
 	CommitFail   bool `json:"commit_fail"`
 	RollbackFail bool `json:"rollback_fail"`
+	// RollbackErr: what a failing rollback reports - "" an injected error value, "badconn", "invalidconn", "conndone",
+	// "canceled", "deadline"
+	RollbackErr string `json:"rollback_err,omitempty"`
+}
+
+// OpenCfg: the gorm.Config the db is opened with and the kind of handle handed to Transact.
+type OpenCfg struct {
+	// Translate: gorm.Config{TranslateError: true} (gorm then rewrites driver errors it adds itself - a step's own
+	// error must still come back unchanged)
+	Translate bool `json:"translate,omitempty"`
+	// SkipDefTx: gorm.Config{SkipDefaultTransaction: true}: gorm no longer wraps single writes; Transact's own
+	// transaction is as owed as ever
+	SkipDefTx bool `json:"skip_default_tx,omitempty"`
+	// PrepareStmt: gorm.Config{PrepareStmt: true} (database/sql fake only: gorm's prepared-statement pool begins
+	// transactions on a *sql.DB only); statements then reach the driver through Prepare + Stmt.Exec
+	PrepareStmt bool `json:"prepare_stmt,omitempty"`
+	// DryRun: gorm.Config{DryRun: true}: gorm builds statements without executing them - Begin/Commit/Rollback are
+	// executed all the same, the Exec of a step does not reach the fake
+	DryRun bool `json:"dry_run,omitempty"`
+	// Handle: "" the db as opened, or a derived handle (see Handles)
+	Handle string `json:"handle,omitempty"`
+}
+
+// Handles: the kinds of *gorm.DB derived from the opened db that are handed to Transact.
+var Handles = []string{"", "session", "newdb", "debug", "where", "sessskip"}
+
+func makeHandle(db *gorm.DB, kind string) *gorm.DB {
+	switch kind {
+	case "session":
+		return db.Session(&gorm.Session{})
+	case "newdb":
+		return db.Session(&gorm.Session{NewDB: true})
+	case "debug":
+		return db.Debug() // the logger writes to io.Discard
+	case "where":
+		return db.Where("a = ?", 1) // a chained handle carrying a condition
+	case "sessskip":
+		return db.Session(&gorm.Session{SkipDefaultTransaction: true})
+	}
+	return db
+}
+
+var rollbackErrKinds = []string{"", "badconn", "invalidconn", "conndone", "canceled", "deadline"}
+
+// rollbackError is the error a failing rollback reports.
+func rollbackError(kind string) error {
+	switch kind {
+	case "badconn":
+		return driver.ErrBadConn
+	case "invalidconn":
+		return mysqldrv.ErrInvalidConn
+	case "conndone":
+		return sql.ErrConnDone
+	case "canceled":
+		return context.Canceled
+	case "deadline":
+		return context.DeadlineExceeded
+	}
+	return txError{"rollback"}
 }
 
 var Backends = []string{"pool", "sqldrv"}
@@ -224,9 +344,11 @@ type faults struct {
 	begin, commit, rollback bool
 	beginErr                error // what a failing begin returns
 	commitErr               error // what a failing commit returns
+	rollbackErr             error // what a failing rollback returns
 	beginOnce               bool  // only the first attempt fails
 	beginTries              int
-	exec                    map[string]int // query -> leaf index whose Exec fails
+	exec                    map[string]error // query -> what its Exec reports
+	quietPrepare            bool             // Prepare calls are expected (PrepareStmt) and not logged
 }
 
 // eventLog is written by the goroutine running Transact and, on the database/sql
@@ -236,7 +358,20 @@ type eventLog struct {
 	ev       []string
 	f        faults
 	finished chan struct{} // closed by the first Commit/Rollback that reaches the fake
-	once     sync.Once
+	closed   bool
+}
+
+// reset starts a fresh log with new faults on the same fake (several Transact calls on one *gorm.DB).
+func (l *eventLog) reset(f faults) {
+	l.mu.Lock()
+	l.ev, l.f, l.finished, l.closed = nil, f, make(chan struct{}), false
+	l.mu.Unlock()
+}
+
+func (l *eventLog) done() chan struct{} {
+	l.mu.Lock()
+	defer l.mu.Unlock()
+	return l.finished
 }
 
 func (l *eventLog) add(format string, args ...any) {
@@ -260,7 +395,14 @@ func (l *eventLog) has(ev string) bool {
 	return false
 }
 
-func (l *eventLog) finish() { l.once.Do(func() { close(l.finished) }) }
+func (l *eventLog) finish() {
+	l.mu.Lock()
+	if !l.closed {
+		l.closed = true
+		close(l.finished)
+	}
+	l.mu.Unlock()
+}
 
 func (l *eventLog) begin() error {
 	l.mu.Lock()
@@ -289,16 +431,16 @@ func (l *eventLog) rollback() error {
 	defer l.finish()
 	if l.f.rollback {
 		l.add("Rollback!fail")
-		return txError{"rollback"}
+		return l.f.rollbackErr
 	}
 	l.add("Rollback")
 	return nil
 }
 
 func (l *eventLog) exec(where, query string) error {
-	if i, bad := l.f.exec[query]; bad {
+	if e, bad := l.f.exec[query]; bad {
 		l.add("%sExec %s!fail", where, query)
-		return execError{i}
+		return e
 	}
 	l.add("%sExec %s", where, query)
 	return nil
@@ -400,7 +542,26 @@ var (
 )
 
 func (c *sqlConn) Prepare(q string) (driver.Stmt, error) {
+	if c.log.f.quietPrepare {
+		return &sqlStmt{c, q}, nil
+	}
 	c.log.add("Prepare %s", q)
+	return nil, errNotSupported
+}
+
+// sqlStmt: a prepared statement of the database/sql fake; its Exec is the Exec of its query.
+type sqlStmt struct {
+	c *sqlConn
+	q string
+}
+
+func (s *sqlStmt) Close() error  { return nil }
+func (s *sqlStmt) NumInput() int { return -1 }
+func (s *sqlStmt) Exec([]driver.Value) (driver.Result, error) {
+	return s.c.ExecContext(context.Background(), s.q, nil)
+}
+func (s *sqlStmt) Query([]driver.Value) (driver.Rows, error) {
+	s.c.log.add("Query %s", s.q)
 	return nil, errNotSupported
 }
 func (c *sqlConn) Close() error { return nil }
@@ -435,7 +596,7 @@ func (x *sqlTx) Rollback() error { x.c.inTx = false; return x.c.log.rollback() }
 // ---------------------------------------------------------------------------
 // opening gorm on a fake
 
-func openGorm(backend string, log *eventLog, translate bool) (db *gorm.DB, closeFn func(), err error) {
+func openGorm(backend string, log *eventLog, cfg OpenCfg) (db *gorm.DB, closeFn func(), err error) {
 	closeFn = func() {}
 	var pool gorm.ConnPool
 	switch backend {
@@ -447,7 +608,8 @@ func openGorm(backend string, log *eventLog, translate bool) (db *gorm.DB, close
 		pool = &memPool{log: log}
 	}
 	db, err = gorm.Open(mysql.New(mysql.Config{Conn: pool, SkipInitializeWithVersion: true}),
-		&gorm.Config{Logger: logger.Discard, DisableAutomaticPing: true, TranslateError: translate})
+		&gorm.Config{Logger: logger.Discard, DisableAutomaticPing: true, TranslateError: cfg.Translate,
+			SkipDefaultTransaction: cfg.SkipDefTx, PrepareStmt: cfg.PrepareStmt && backend == "sqldrv", DryRun: cfg.DryRun})
 	return db, closeFn, err
 }
 
@@ -486,6 +648,16 @@ func panicValue(pv string, i int) (v any, token string) {
 		return nil, ""
 	case PVRuntime:
 		return nil, "index out of range"
+	case PVNilDeref:
+		return nil, "nil pointer dereference"
+	case PVAbortHandler:
+		return http.ErrAbortHandler, http.ErrAbortHandler.Error()
+	case PVCtxCanceled:
+		return context.Canceled, context.Canceled.Error()
+	case PVNotFound:
+		return gorm.ErrRecordNotFound, gorm.ErrRecordNotFound.Error()
+	case PVEOF:
+		return io.EOF, io.EOF.Error()
 	case PVNilErr:
 		return (*mysqldrv.MySQLError)(nil), ""
 	case PVBadStringer:
@@ -545,6 +717,10 @@ func (r *run) leafFn(i int, s Step) gormx.GormProcFn {
 				var empty []int
 				_ = empty[i+5]
 			}
+			if s.PV == PVNilDeref {
+				var np *panicStruct
+				_ = np.N
+			}
 			v, _ := panicValue(s.PV, i)
 			panic(v)
 		case KExecFail:
@@ -594,11 +770,7 @@ func Exec(c Case) *vkit.Result {
 		res.Skip("unknown context mode (ran without a context)")
 		mode = CtxNone
 	}
-	if backend == "sqldrv" && (c.BeginErr == "badconn" || c.BeginErr == "conndone") {
-		// database/sql would retry the begin by itself: those attempts are not Transact's doing
-		res.Skip("begin error " + c.BeginErr + " on the database/sql fake (ran with the injected error value)")
-		c.BeginErr = ""
-	}
+	c = normalize(c, backend, res)
 	var leaves []leaf
 	leaves = flatten(c.Steps, leaves, &res.Skipped)
 	r := &run{leaves: leaves, cancelAt: -1, goexited: -1}
@@ -607,10 +779,10 @@ func Exec(c Case) *vkit.Result {
 	if len(fns) == 0 && c.EmptySlice {
 		fns = []gormx.GormProcFn{}
 	}
-	execPass(c, backend, mode, r, fns, res)
+	execPass(c, backend, mode, r, fns, res, nil)
 	if c.Twice && res.Fail == nil {
 		res.Class("invoked twice with the same step values")
-		execPass(c, backend, mode, r, fns, res)
+		execPass(c, backend, mode, r, fns, res, nil)
 		if res.Fail != nil {
 			res.Fail.Msg = "at the SECOND invocation of Transact with the same step functions / Combine values: " + res.Fail.Msg
 		}
@@ -618,27 +790,103 @@ func Exec(c Case) *vkit.Result {
 	return res
 }
 
-// execPass invokes Transact once on a fresh fake with a fresh event log and judges
-// that invocation.
-func execPass(c Case, backend, mode string, r *run, fns []gormx.GormProcFn, res *vkit.Result) *vkit.Result {
-	leaves := r.leaves
-	log := &eventLog{finished: make(chan struct{}),
-		f: faults{begin: c.BeginFail, commit: c.CommitFail, rollback: c.RollbackFail, exec: map[string]int{},
-			beginErr: beginError(c.BeginErr), beginOnce: c.BeginOnce, commitErr: commitError(c.CommitErr)}}
-	for i, l := range leaves {
-		if l.kind == KExecFail {
-			log.f.exec[fmt.Sprintf("STEP %d", i)] = i
+// normalize drops the combinations the fakes cannot serve (each is counted as skipped).
+func normalize(c Case, backend string, res *vkit.Result) Case {
+	if backend == "sqldrv" && (c.BeginErr == "badconn" || c.BeginErr == "conndone") {
+		// database/sql would retry the begin by itself: those attempts are not Transact's doing
+		res.Skip("begin error " + c.BeginErr + " on the database/sql fake (ran with the injected error value)")
+		c.BeginErr = ""
+	}
+	if backend != "sqldrv" && c.PrepareStmt {
+		// gorm's prepared-statement pool begins transactions on a *sql.DB only
+		res.Skip("PrepareStmt on the in-memory pool (ran without it)")
+		c.PrepareStmt = false
+	}
+	if c.DryRun {
+		var leaves []leaf
+		var dummy []string
+		for _, l := range flatten(c.Steps, leaves, &dummy) {
+			if l.kind == KExecFail {
+				// no statement reaches the fake, so it cannot make one fail
+				res.Skip("DryRun with a step whose Exec is to fail (ran without DryRun)")
+				c.DryRun = false
+				break
+			}
 		}
 	}
-	r.log, r.returned, r.cancelAt, r.cancel, r.cancelled, r.goexited = log, map[int]error{}, -1, nil, false, -1
+	known := false
+	for _, h := range Handles {
+		known = known || h == c.Handle
+	}
+	if !known {
+		res.Skip("unknown handle kind (ran on the db as opened)")
+		c.Handle = ""
+	}
+	return c
+}
 
-	db, closeFn, err := openGorm(backend, log, c.Translate)
-	defer closeFn()
+// session: one opened db and the handle of it that is handed to Transact, used for several calls in a row.
+type session struct {
+	log     *eventLog
+	root    *gorm.DB // as opened
+	handle  *gorm.DB // as handed to Transact (before the per-call context)
+	closeFn func()
+	// sched watches the goroutines of the calls that contain a step ending its goroutine. It is made BEFORE the db
+	// is opened, so that everything the db and earlier calls on it leave running (database/sql's own rollback of a
+	// cancelled transaction, gorm closing a prepared statement) counts as part of the case: a Transact that waits
+	// for a mutex such a goroutine still holds is not parked for ever.
+	sched *vkit.Sched
+}
+
+func openSession(backend string, cfg OpenCfg, log *eventLog, watch bool) *session {
+	var sched *vkit.Sched
+	if watch {
+		sched = vkit.NewSched()
+	}
+	db, closeFn, err := openGorm(backend, log, cfg)
 	if err != nil {
 		panic(fmt.Sprintf("harness: gorm.Open on the %s fake failed: %v", backend, err))
 	}
 	if len(log.snapshot()) != 0 {
 		panic(fmt.Sprintf("harness: gorm.Open touched the fake: %v", log.snapshot()))
+	}
+	return &session{log: log, root: db, handle: makeHandle(db, cfg.Handle), closeFn: closeFn, sched: sched}
+}
+
+// execPass invokes Transact once and judges that invocation: on a fresh fake with a
+// fresh event log (sess == nil), or as the next call on the db of sess with the log
+// started afresh.
+func execPass(c Case, backend, mode string, r *run, fns []gormx.GormProcFn, res *vkit.Result, sess *session) *vkit.Result {
+	leaves := r.leaves
+	f := faults{begin: c.BeginFail, commit: c.CommitFail, rollback: c.RollbackFail, exec: map[string]error{},
+		beginErr: beginError(c.BeginErr), beginOnce: c.BeginOnce, commitErr: commitError(c.CommitErr),
+		rollbackErr: rollbackError(c.RollbackErr), quietPrepare: c.PrepareStmt && backend == "sqldrv"}
+	for i, l := range leaves {
+		if l.kind == KExecFail {
+			var e error = execError{i}
+			if l.pv != "" {
+				e = stepErrValue(l.pv, i) // a MySQL error below gorm
+			}
+			f.exec[fmt.Sprintf("STEP %d", i)] = e
+		}
+	}
+	ownGoroutine := false
+	for _, l := range leaves {
+		ownGoroutine = ownGoroutine || l.kind == KGoexit
+	}
+	var log *eventLog
+	if sess == nil {
+		log = &eventLog{finished: make(chan struct{}), f: f}
+		sess = openSession(backend, c.OpenCfg, log, ownGoroutine)
+		defer sess.closeFn()
+	} else {
+		log = sess.log
+		log.reset(f)
+	}
+	r.log, r.returned, r.cancelAt, r.cancel, r.cancelled, r.goexited = log, map[int]error{}, -1, nil, false, -1
+	db := sess.handle
+	if db.Error != nil || sess.root.Error != nil {
+		panic("harness: the handle carries an error before Transact is called")
 	}
 
 	// ---- the context of the db handed to Transact ------------------------------
@@ -658,6 +906,17 @@ func execPass(c Case, backend, mode string, r *run, fns []gormx.GormProcFn, res 
 		defer cancel()
 		db = db.WithContext(ctx)
 	}
+
+	// Transact must leave the handle it was handed as it found it (without an error): callers keep using it,
+	// and a handle that carries an error makes every later Begin through it fail after the transaction was opened.
+	// Judged last, when the statement's own clauses found nothing.
+	handed := db
+	defer func() {
+		if res.Fail == nil && (handed.Error != nil || sess.handle.Error != nil || sess.root.Error != nil) {
+			res.Failf("handle/error-left", "Transact left an error on the *gorm.DB of its caller (%v): every later transaction through that handle is lost\n backend %s, observed events: %v",
+				firstErr(handed.Error, sess.handle.Error, sess.root.Error), backend, log.snapshot())
+		}
+	}()
 
 	// ---- run -----------------------------------------------------------------
 	// When some step ends its goroutine (runtime.Goexit) Transact never returns to its
@@ -683,12 +942,27 @@ func execPass(c Case, backend, mode string, r *run, fns []gormx.GormProcFn, res 
 		}
 		outcome = "returned"
 	}
-	ownGoroutine := false
-	for _, l := range leaves {
-		ownGoroutine = ownGoroutine || l.kind == KGoexit
-	}
 	if ownGoroutine {
-		go call()
+		// Nothing may keep Transact from coming to an end: its goroutine is watched through goroutine snapshots
+		// (no timer is in play in a case). Once everything the case started is parked or gone, a Transact that
+		// has neither returned nor ended can never do so - decided from the snapshot, not waited for.
+		sched := sess.sched
+		if sched == nil {
+			panic("harness: a call with a step that ends its goroutine on a session without a watcher")
+		}
+		op := sched.Go("Transact", call)
+		parked, qerr := sched.Quiesce()
+		if qerr != nil {
+			vkit.Infra("c18transact: %v", qerr)
+		}
+		if !op.Done() {
+			states := ""
+			for _, g := range parked {
+				states += fmt.Sprintf(" [goroutine %d: %s]", g.ID, g.State)
+			}
+			return res.Failf("blocks", "Transact neither returned nor let its goroutine end after a step called runtime.Goexit: it waits for something nobody is left to provide (goroutines of the case, all parked:%s)\n backend %s, observed events: %v",
+				states, backend, log.snapshot())
+		}
 	} else {
 		call()
 	}
@@ -702,12 +976,12 @@ func execPass(c Case, backend, mode string, r *run, fns []gormx.GormProcFn, res 
 	async := backend == "sqldrv" && ctxOver
 	if async && log.has("Begin") {
 		select {
-		case <-log.finished:
+		case <-log.done():
 		default:
 			res.Class("sqldrv: finish still outstanding when Transact returned (database/sql's own rollback)")
 		}
 		select {
-		case <-log.finished:
+		case <-log.done():
 		case <-time.After(asyncWait):
 			infra("database/sql did not finish the transaction of a cancelled context within %v (case %+v)", asyncWait, c)
 		}
@@ -764,7 +1038,8 @@ func execPass(c Case, backend, mode string, r *run, fns []gormx.GormProcFn, res 
 	}
 	// under database/sql a statement issued on a cancelled context need not reach the driver
 	// (nor one issued through a handle that carries an error, whatever the fake)
-	execOptional := func(i int) bool { return (backend == "sqldrv" && i > cancelIdx) || i > handleErr }
+	// (nor any statement when the db was opened with DryRun)
+	execOptional := func(i int) bool { return (backend == "sqldrv" && i > cancelIdx) || i > handleErr || c.DryRun }
 	wantStepsUpTo := func(j int) []string {
 		var w []string
 		for i := 0; i <= j; i++ {
@@ -779,6 +1054,18 @@ func execPass(c Case, backend, mode string, r *run, fns []gormx.GormProcFn, res 
 	// ---- classes and the non-trivial rule ---------------------------------------
 	res.Class("backend:" + backend)
 	res.Class("ctx:" + mode)
+	if c.Handle != "" {
+		res.Class("handle:" + c.Handle)
+	}
+	if c.SkipDefTx {
+		res.Class("config: SkipDefaultTransaction")
+	}
+	if c.PrepareStmt {
+		res.Class("config: PrepareStmt")
+	}
+	if c.DryRun {
+		res.Class("config: DryRun")
+	}
 	res.Class(fmt.Sprintf("top-level steps:%s", bucket(nTop)))
 	beginRefused := backend == "sqldrv" && cancelIdx == -1 // database/sql refuses to begin on a finished context
 	began := nTop > 0 && !c.BeginFail && !beginRefused
@@ -827,6 +1114,15 @@ func execPass(c Case, backend, mode string, r *run, fns []gormx.GormProcFn, res 
 		}
 		if c.RollbackFail {
 			res.Class("step fails and rollback fails")
+			if c.RollbackErr != "" {
+				res.Class("rollback error: " + c.RollbackErr)
+			}
+		}
+		if l.kind == KExecFail && l.pv != "" {
+			res.Class("exec fails with MySQL error: " + l.pv)
+			if c.Translate && l.pv == PVDup {
+				res.Class("exec fails with 1062 under TranslateError (the step returns gorm.ErrDuplicatedKey)")
+			}
 		}
 		laterFail := false
 		for _, l := range leaves[first+1:] {
@@ -1049,7 +1345,7 @@ func execPass(c Case, backend, mode string, r *run, fns []gormx.GormProcFn, res 
 			}
 			if !errors.Is(got, wantErr) {
 				site := "result/step-error"
-				if c.RollbackFail && errors.Is(got, txError{"rollback"}) {
+				if c.RollbackFail && errors.Is(got, rollbackError(c.RollbackErr)) {
 					site = "result/masked-by-rollback"
 				}
 				return res.Failf(site, "result must be the error of the first failing step %d (%v)%s", first, wantErr, show())
@@ -1058,7 +1354,7 @@ func execPass(c Case, backend, mode string, r *run, fns []gormx.GormProcFn, res 
 			_, tok := panicValue(leaves[first].pv, first)
 			if tok != "" && !strings.Contains(got.Error(), tok) {
 				site := "result/panic-mention"
-				if c.RollbackFail && errors.Is(got, txError{"rollback"}) {
+				if c.RollbackFail && errors.Is(got, rollbackError(c.RollbackErr)) {
 					site = "result/masked-by-rollback"
 				}
 				return res.Failf(site, "step %d panicked; the result must mention the panic value (%q)%s", first, tok, show())
@@ -1066,6 +1362,15 @@ func execPass(c Case, backend, mode string, r *run, fns []gormx.GormProcFn, res 
 		}
 	}
 	return res
+}
+
+func firstErr(es ...error) error {
+	for _, e := range es {
+		if e != nil {
+			return e
+		}
+	}
+	return nil
 }
 
 func equalStrings(a, b []string) bool {
@@ -1195,13 +1500,23 @@ func EnumCases(maxN, maxNCtx int) []Case {
 	return append(out, enumExtras()...)
 }
 
+// allErrValues: every error value of a failing step: the plain ones, each wrappable one wrapped with %w and joined
+// with errors.Join, and the two whose Error() panics.
+func allErrValues() []string {
+	out := append([]string(nil), errKindsAll...)
+	for _, k := range errKinds {
+		out = append(out, EVWrap+k, EVJoin+k)
+	}
+	return append(out, EVWrap+EVWrap+EVEOF, EVJoin+EVWrap+EVDupKey)
+}
+
 // enumExtras: small complete families beyond the outcome vectors.
 func enumExtras() []Case {
 	var out []Case
 	ok := Step{Kind: KOk}
 	for _, be := range Backends {
 		// every error value, alone and in the middle, without a context and under a live one, rollback ok/failing
-		for _, ev := range errKinds[1:] {
+		for _, ev := range allErrValues()[1:] {
 			e := Step{Kind: KErr, PV: ev}
 			for _, steps := range [][]Step{{e}, {ok, e, ok}} {
 				for _, ctx := range []string{"", CtxLive} {
@@ -1229,6 +1544,75 @@ func enumExtras() []Case {
 				for _, twice := range []bool{false, true} {
 					out = append(out, Case{Backend: be, Steps: steps, Twice: twice})
 				}
+			}
+		}
+		// second audit round ------------------------------------------------------------------------------
+		perr := Step{Kind: KPanic, PV: PVString}
+		serr := Step{Kind: KErr}
+		// a rollback failing with every error value (a dead connection, a finished context): exactly one Rollback
+		for _, rk := range rollbackErrKinds[1:] {
+			for _, steps := range [][]Step{{serr}, {ok, perr}, {ok, serr, ok}, {{Kind: KErr, PV: EVBadConn}}, {{Kind: KGoexit}}} {
+				for _, ctx := range []string{"", CtxLive, CtxCancelled} {
+					out = append(out, Case{Backend: be, Steps: steps, Ctx: ctx, RollbackFail: true, RollbackErr: rk})
+				}
+			}
+		}
+		// an Exec failing with a MySQL error below gorm, the db opened with and without TranslateError
+		for _, xk := range execFailKinds {
+			x := Step{Kind: KExecFail, PV: xk}
+			for _, steps := range [][]Step{{x}, {ok, x, ok}, {ok, {Kind: KGroup, Sub: []Step{x, ok}}}} {
+				for _, tr := range []bool{false, true} {
+					for _, rf := range []bool{false, true} {
+						c := Case{Backend: be, Steps: steps, RollbackFail: rf}
+						c.Translate = tr
+						out = append(out, c)
+					}
+				}
+			}
+		}
+		// sentinel panic values (by identity) and a genuine nil dereference
+		for _, pv := range []string{PVAbortHandler, PVCtxCanceled, PVNotFound, PVEOF, PVNilDeref} {
+			p := Step{Kind: KPanic, PV: pv}
+			for _, steps := range [][]Step{{p}, {ok, p, ok}, {{Kind: KGroup, Sub: []Step{ok, p}}}} {
+				for _, rf := range []bool{false, true} {
+					out = append(out, Case{Backend: be, Steps: steps, RollbackFail: rf})
+				}
+			}
+		}
+		// every way the db is opened / every kind of handle x a few step lists x commit ok / failing
+		var cfgs []OpenCfg
+		for _, h := range Handles[1:] {
+			cfgs = append(cfgs, OpenCfg{Handle: h}, OpenCfg{Handle: h, SkipDefTx: true})
+		}
+		cfgs = append(cfgs, OpenCfg{SkipDefTx: true}, OpenCfg{DryRun: true}, OpenCfg{SkipDefTx: true, Translate: true})
+		if be == "sqldrv" {
+			cfgs = append(cfgs, OpenCfg{PrepareStmt: true}, OpenCfg{PrepareStmt: true, SkipDefTx: true}, OpenCfg{PrepareStmt: true, Handle: "session"})
+		}
+		for _, cfg := range cfgs {
+			for _, steps := range [][]Step{{ok}, {ok, ok, ok}, {serr}, {ok, serr, ok}, {ok, perr, ok}, {ok, {Kind: KExecFail}}, {ok, {Kind: KAddErr}, ok}, {ok, {Kind: KGoexit}}} {
+				for _, ctx := range []string{"", CtxLive, CtxCancelled} {
+					for _, cf := range []bool{false, true} {
+						c := Case{Backend: be, Steps: steps, Ctx: ctx, CommitFail: cf}
+						c.OpenCfg = cfg
+						out = append(out, c)
+					}
+				}
+			}
+		}
+		// lists around 64, 128 and 256 steps: all ok; a failure around the boundary and at the end
+		for _, n := range []int{64, 65, 66, 129, 257} {
+			for _, fail := range []int{-1, 63, 64, 65, n - 1} {
+				if fail >= n {
+					continue
+				}
+				steps := make([]Step, n)
+				for i := range steps {
+					steps[i] = ok
+				}
+				if fail >= 0 {
+					steps[fail] = serr
+				}
+				out = append(out, Case{Backend: be, Steps: steps})
 			}
 		}
 		// long top-level lists: all ok; a failure at position 16, 17 and at the end
@@ -1328,7 +1712,8 @@ const maxLeaves = 12
 // maxLong: the longest list of the occasional long cases (13..maxLong steps, mostly all at top level)
 const maxLong = 40
 
-var pvKinds = []string{PVString, PVError, PVInt, PVStruct, PVNil, PVRuntime, PVNilErr, PVBadStringer}
+var pvKinds = []string{PVString, PVError, PVInt, PVStruct, PVNil, PVRuntime, PVNilErr, PVBadStringer,
+	PVAbortHandler, PVCtxCanceled, PVNotFound, PVEOF, PVNilDeref}
 
 func genLeaf(t *rapid.T, failing bool) Step {
 	if !failing {
@@ -1338,9 +1723,18 @@ func genLeaf(t *rapid.T, failing bool) Step {
 	case 0:
 		return Step{Kind: KErr}
 	case 1, 2:
-		return Step{Kind: KErr, PV: rapid.SampledFrom(errKinds).Draw(t, "errkind")}
+		ev := rapid.SampledFrom(errKindsAll).Draw(t, "errkind")
+		if ev != EVNilErr && ev != EVBadErr {
+			switch rapid.IntRange(0, 5).Draw(t, "errwrap") {
+			case 4:
+				ev = EVWrap + ev
+			case 5:
+				ev = EVJoin + ev
+			}
+		}
+		return Step{Kind: KErr, PV: ev}
 	case 3:
-		return Step{Kind: KExecFail}
+		return Step{Kind: KExecFail, PV: rapid.SampledFrom(execFailKinds).Draw(t, "execfailkind")}
 	case 4:
 		return Step{Kind: KGoexit}
 	default:
@@ -1463,12 +1857,35 @@ func Gen(t *rapid.T) Case {
 		c.CommitErr = rapid.SampledFrom([]string{"", "invalidconn", "badconn"}).Draw(t, "commitErr")
 	}
 	c.RollbackFail = rapid.IntRange(0, 2).Draw(t, "rollbackFail") == 2
+	if c.RollbackFail {
+		c.RollbackErr = rapid.SampledFrom(rollbackErrKinds).Draw(t, "rollbackErr")
+	}
+	// how the db is opened, and which handle of it Transact gets (the plain db in about 2/3 of the cases)
+	c.SkipDefTx = rapid.IntRange(0, 5).Draw(t, "skipDefTx") == 5
+	if c.Backend == "sqldrv" {
+		c.PrepareStmt = rapid.IntRange(0, 7).Draw(t, "prepareStmt") == 7
+	}
+	if rapid.IntRange(0, 15).Draw(t, "dryRun") == 15 && !hasKind(c.Steps, KExecFail) {
+		c.DryRun = true
+	}
+	if rapid.IntRange(0, 2).Draw(t, "derived") == 2 {
+		c.Handle = rapid.SampledFrom(Handles[1:]).Draw(t, "handle")
+	}
 	if len(c.Steps) == 0 {
 		c.EmptySlice = rapid.Bool().Draw(t, "emptySlice")
 	}
 	// 1/8 of the cases: Transact is invoked a second time with the same step values
 	c.Twice = rapid.IntRange(0, 7).Draw(t, "twice") == 7
 	return c
+}
+
+func hasKind(steps []Step, kind string) bool {
+	for _, s := range steps {
+		if s.Kind == kind || (s.Kind == KGroup && hasKind(s.Sub, kind)) {
+			return true
+		}
+	}
+	return false
 }
 
 func hugeOneIn() int {
@@ -1496,14 +1913,14 @@ const ntRule = "Non-trivial: the transaction was begun and (the first failing st
 
 var PartEnum = &vkit.Part[Case]{
 	Property: Property, Name: "outcomes",
-	Rule:  "complete enumeration, once per fake (in-memory gorm.ConnPool with ConnPoolBeginner/TxCommitter; in-process database/sql driver under *sql.DB), both below gorm's MySQL dialector: every step list of length 0..4 over {return nil, return an error, panic} x begin {ok, fails} x commit {ok, fails} x rollback {ok, fails} without a context (2 x 968 cases), and every step list of length 0..3 over the same outcomes x the db carrying a context that is {live, cancelled before Transact, past its deadline before Transact, cancelled by step k right after its Exec for every k < n} x the same begin/commit/rollback faults (2 x 1776 cases); each step logs its call and issues Exec(\"STEP i\"); the Begin/Exec/Commit/Rollback calls reaching the fake are compared with the sequence the statement prescribes, the returned error with the first failing step. No steps: handed over as nothing and as an empty non-nil list. Without a context also: a begin failing with mysql.ErrInvalidConn (on the in-memory pool also driver.ErrBadConn, sql.ErrConnDone), at every attempt or only the first; a commit failing with mysql.ErrInvalidConn / driver.ErrBadConn. Further complete families: every list of 1..3 steps (1..2 under every context mode) over the same outcomes plus {the step ends its goroutine with runtime.Goexit} resp. plus {the step leaves an error on the handle with AddError and returns nil} that contains such a step, x the same faults; each of ten well-known error values (gorm.ErrRecordNotFound, sql.ErrNoRows, sql.ErrTxDone, context.Canceled, context.DeadlineExceeded, driver.ErrBadConn, mysql.ErrInvalidConn, MySQL 1062/1213/1205) as the only step and in the middle, no context / live context, rollback ok / failing; panic values whose own Error()/String() panics; every outcome vector of three leaves in four Combine shapes, invoked once and twice with the same step values; 13..40 top-level steps all succeeding or failing at step 16, 17 or the last. " + ntRule,
+	Rule:  "complete enumeration, once per fake (in-memory gorm.ConnPool with ConnPoolBeginner/TxCommitter; in-process database/sql driver under *sql.DB), both below gorm's MySQL dialector: every step list of length 0..4 over {return nil, return an error, panic} x begin {ok, fails} x commit {ok, fails} x rollback {ok, fails} without a context (2 x 968 cases), and every step list of length 0..3 over the same outcomes x the db carrying a context that is {live, cancelled before Transact, past its deadline before Transact, cancelled by step k right after its Exec for every k < n} x the same begin/commit/rollback faults (2 x 1776 cases); each step logs its call and issues Exec(\"STEP i\"); the Begin/Exec/Commit/Rollback calls reaching the fake are compared with the sequence the statement prescribes, the returned error with the first failing step. No steps: handed over as nothing and as an empty non-nil list. Without a context also: a begin failing with mysql.ErrInvalidConn (on the in-memory pool also driver.ErrBadConn, sql.ErrConnDone), at every attempt or only the first; a commit failing with mysql.ErrInvalidConn / driver.ErrBadConn. Further complete families: every list of 1..3 steps (1..2 under every context mode) over the same outcomes plus {the step ends its goroutine with runtime.Goexit} resp. plus {the step leaves an error on the handle with AddError and returns nil} that contains such a step, x the same faults; each of ten well-known error values (gorm.ErrRecordNotFound, sql.ErrNoRows, sql.ErrTxDone, context.Canceled, context.DeadlineExceeded, driver.ErrBadConn, mysql.ErrInvalidConn, MySQL 1062/1213/1205) as the only step and in the middle, no context / live context, rollback ok / failing; panic values whose own Error()/String() panics; every outcome vector of three leaves in four Combine shapes, invoked once and twice with the same step values; 13..40 top-level steps all succeeding or failing at step 16, 17 or the last. Second audit round, each a complete family: every error value - the ten above, gorm.ErrDuplicatedKey, gorm.ErrInvalidTransaction, sql.ErrConnDone, io.EOF, io.ErrUnexpectedEOF, MySQL 1105/1452, each also wrapped with %w and joined with errors.Join, and two values whose own Error() panics (typed-nil *mysql.MySQLError, a custom type) - alone and in the middle, rollback ok / failing; a rollback failing with driver.ErrBadConn, mysql.ErrInvalidConn, sql.ErrConnDone, context.Canceled, context.DeadlineExceeded after an error, a panic and a Goexit; an Exec failing below gorm with MySQL 1062/1213/1205/1105/1452, the db opened with and without TranslateError (1062 then comes back from the step as gorm.ErrDuplicatedKey); panics with the values http.ErrAbortHandler, context.Canceled, gorm.ErrRecordNotFound, io.EOF and a genuine nil dereference; the db opened with SkipDefaultTransaction, DryRun, (database/sql fake) PrepareStmt, and Transact handed db.Session(&gorm.Session{}), Session{NewDB}, Session{SkipDefaultTransaction}, db.Debug(), db.Where(...) - each x eight step lists x {no context, live, cancelled} x commit ok / failing; 64, 65, 66, 129 and 257 top-level steps all succeeding or failing at step 63, 64, 65 or the last. After every call the handle handed in must carry no error. A Transact whose step called runtime.Goexit runs under a goroutine-snapshot guard: parked for ever = violation, not a hang. " + ntRule,
 	Quick: 1, Thorough: 1,
 	Gen: Gen, Exec: Exec,
 }
 
 var PartRandom = &vkit.Part[Case]{
 	Property: Property, Name: "random",
-	Rule:  "rapid: 1..12 leaf steps (none at all in 1/20 of the cases; all ok / one failure at first, last or drawn position / two failures / each failing with p=1/3; failure = returned error - an injected value or one of ten well-known sentinels / driver errors -, Exec failing inside the fake and handed back through gorm, runtime.Goexit inside the step, or a panic with a string, error, int, struct, nil or run-time-error value or a value whose own Error()/String() panics; in 1/12 of the cases one succeeding step leaves an error on the handle (AddError) and returns nil; about 1/24 of the cases - 1/8 in the thorough tier - have 13..40 steps, mostly all at top level) wrapped into a random gormx.Combine tree of depth <= 3 with empty Combine() calls, x context of the db (none about 1/3, live, cancelled before Transact, deadline expired before Transact, cancelled inside a step about 1/3 - mostly the first failing step or one before it) x backend x begin fails (1/12; injected value, mysql.ErrInvalidConn, on the pool also driver.ErrBadConn / sql.ErrConnDone; always or only at the first attempt) x commit fails (1/3; injected value, mysql.ErrInvalidConn or driver.ErrBadConn) x rollback fails (1/3); no steps: nothing or an empty non-nil list; about 1/8 of the cases invoke Transact a second time with the same step functions / Combine values on a fresh fake; same oracle as the enumeration. " + ntRule,
+	Rule:  "rapid: 1..12 leaf steps (none at all in 1/20 of the cases; all ok / one failure at first, last or drawn position / two failures / each failing with p=1/3; failure = returned error - an injected value or one of ten well-known sentinels / driver errors -, Exec failing inside the fake and handed back through gorm, runtime.Goexit inside the step, or a panic with a string, error, int, struct, nil or run-time-error value or a value whose own Error()/String() panics; in 1/12 of the cases one succeeding step leaves an error on the handle (AddError) and returns nil; about 1/24 of the cases - 1/8 in the thorough tier - have 13..40 steps, mostly all at top level) wrapped into a random gormx.Combine tree of depth <= 3 with empty Combine() calls, x context of the db (none about 1/3, live, cancelled before Transact, deadline expired before Transact, cancelled inside a step about 1/3 - mostly the first failing step or one before it) x backend x begin fails (1/12; injected value, mysql.ErrInvalidConn, on the pool also driver.ErrBadConn / sql.ErrConnDone; always or only at the first attempt) x commit fails (1/3; injected value, mysql.ErrInvalidConn or driver.ErrBadConn) x rollback fails (1/3); no steps: nothing or an empty non-nil list; about 1/8 of the cases invoke Transact a second time with the same step functions / Combine values on a fresh fake; same oracle as the enumeration. Second audit round: the error values of a failing step are drawn from 20 (see the enumeration; 1/3 of the wrappable ones wrapped with %w or errors.Join), the panic values from 13, a failing Exec reports the injected value or one of five MySQL errors below gorm, a failing rollback the injected value or one of five connection / context errors; the db is opened with SkipDefaultTransaction (1/6), PrepareStmt (1/8, database/sql fake), DryRun (1/16) and Transact is handed a derived handle in 1/3 of the cases. " + ntRule,
 	Quick: 20000, Thorough: 20000,
 	Gen: Gen, Exec: Exec,
 }
